@@ -1612,3 +1612,27 @@ Theorem C01_known_narrowed :
   /\ (known_c01_broad None nar_4 = 3 /\ known_c01 None nar_4 = 0).
 Proof. exact known_narrowed. Qed.
 Print Assumptions C01_known_narrowed.
+
+(* class 1 of Known_C01 (the file scheme) does not contain the scheme-less references that are empty or
+   start with '?' / '#': they are resolved by the fragment-only / query-only / empty-reference classes, which
+   hold for every kind of base, so C01_statement_all covers them against file bases too *)
+Theorem C01_class3_complete_bare_ref : forall sb input,
+  spec_scheme (spec_clean input) = None -> k_bare_ref (spec_clean input) = true ->
+  in_proved_class3 (Some sb) input = true.
+Proof. exact bare_ref_covers. Qed.
+Check C01_class3_complete_bare_ref : forall sb input,
+  spec_scheme (spec_clean input) = None ->
+  match spec_clean input with [] => true | c :: _ => (c =? 63) || (c =? 35) end = true ->
+  in_proved_class3 (Some sb) input = true.
+Print Assumptions C01_class3_complete_bare_ref.
+
+(* against the parse result of file://h/tmp/x: "#f", "?q", "", " <TAB>" are outside Known_C01, "x" and "/x" are
+   in class 1 *)
+Theorem C01_known_file_bare :
+  match parse_url true (host_parse id_idna) host_parse_opaque host_display None None file_base_text with
+  | POk b => known_c01 (Some b) [35; 102] = 0 /\ known_c01 (Some b) [63; 113] = 0 /\ known_c01 (Some b) [] = 0
+             /\ known_c01 (Some b) [32; 9] = 0 /\ known_c01 (Some b) [120] = 1 /\ known_c01 (Some b) [47; 120] = 1
+  | _ => False
+  end.
+Proof. exact known_file_bare. Qed.
+Print Assumptions C01_known_file_bare.
